@@ -76,6 +76,14 @@ CLAIMED["C07"] = dict(cat="proof", ref="DESIGN.md §5 C07, §12",
         "header compared; final stream compared with the model's prediction.",
    note=CONT_NOTE + "; reopen-for-append is modelled as resuming from the same stream (arguments ignored) and tied by correspondence only; two live writers on one stream not covered",
    tech="Lean 4 invariant proof over operation histories + history correspondence")
+CLAIMED["C10"] = dict(cat="proof", ref="DESIGN.md §5 C10, §12",
+   text="Lean theorems c10_validate_eq_conforms (validate(raise_errors=False) = Spec.conforms, the documented mapping, for every plain schema, datum, "
+        "strict and disable_tuple_notation, any depth), c10_raise_iff (raising mode raises ValidationError exactly in the False cases: validate_raise_eq "
+        "proves raise mode = non-raise mode with False lifted, at every depth), c10_strict, c10_gate (validating writer leaves its state untouched). "
+        "Implementation compared with Spec.conforms on conforming data and single mutations x raise x strict x dtn, validate_many, the validating Writer.",
+   note="logical-type annotations excluded from this theorem (C16); 'everything validate accepts is encoded and round-trips' is checked on the implementation and "
+        "follows for the model from C01/C02 where the normal form is defined; model==implementation observed by correspondence",
+   tech="Lean 4 proof (validate = conforms; raise-mode lifting) + Spec.conforms oracle against the implementation")
 PENDING = {}
 
 def main():
